@@ -20,7 +20,8 @@ type stream[REQ any, RES any] struct {
 	reason   error
 	m        sync.Mutex
 
-	failSends int // next k client Sends fail with errSendInjected
+	failSends int // next k client Sends (after skipSends successful ones) fail with errSendInjected
+	skipSends int
 	onFail    func()
 	// onSent runs in the SENDER's goroutine after the hand-over succeeded and before Send returns:
 	// this is where engine -> plugin outputs are logged, so that whatever the engine does next is
@@ -66,7 +67,9 @@ func (s *stream[REQ, RES]) close(reason error) {
 
 func (s *stream[REQ, RES]) clientSend(req REQ) error {
 	s.m.Lock()
-	if s.failSends > 0 {
+	if s.failSends > 0 && s.skipSends > 0 {
+		s.skipSends--
+	} else if s.failSends > 0 {
 		s.failSends--
 		f := s.onFail
 		s.m.Unlock()
